@@ -77,6 +77,8 @@ def judge(ctx, t, v, spelling=None):
         except Exception as e:
             s = e
         ctx.count('blind_unpack')
+        if isinstance(s, Exception):
+            return ctx.violation('C10|blind-unpack-raises|%s|%s' % (t[0], k), 'bytes %s: %r' % (raw.hex(), s), case)
         exp = P.render(v, t, 'readable')['string']
         if isinstance(s, str) and s != exp and s[:3] in ('tz1', 'tz2', 'tz3', 'tz4', 'KT1', 'sr1', 'txr', 'edp', 'spp', 'p2p', 'BLp', 'sig', 'BLs'):
             ctx.violation('C10|blind-unpack-kind-confusion|%s|%s' % (t[0], k), 'bytes %s read as %s, written as %s' % (raw.hex(), s, exp), case)
